@@ -423,4 +423,10 @@ iff the client sent a subnet option (whatever the policy then did to it). -/
 def rootView (clientSentEcs cd : Bool) (optEcsAfterEdns scopeValid : Bool) : ReqView :=
   { cd := cd, optEcs := optEcsAfterEdns, markEcs := clientSentEcs, treeBypass := false, scopeValid := scopeValid }
 
+/-- a request tree: the client's request at the cache, then any chain of
+sub-queries (alias chases, internal look-ups), each a fresh message with
+arbitrary CD / option / scope state under its parent's context. -/
+def descend (root : ReqView) (path : List (Bool × Bool × Bool)) : ReqView :=
+  path.foldl (fun v m => childView v m.1 m.2.1 m.2.2) root
+
 end SdnsVerif.Model.Ecs
